@@ -72,6 +72,12 @@ class PlanConfig:
         self.allow_async = allow_async
         self.focus = focus
         self.slowc_num = (0, 2, 4)[tape.weighted((2, 2, 1), "p_slowc")] if allow_async else 0
+        if focus == "background":
+            # many synchronous failures next to asynchronous siblings: chains of work that the
+            # executor settles in the background (what the async_work_finished hook waits for)
+            self.async_num = 5
+            self.fault_num = 5
+            self.src_fault_num = 0
         if focus == "seriality":
             # every position asynchronous, failures only as raising awaitables, slow cancellation
             # common, no source failures: subtrees cannot orphan work (strict seriality applies)
@@ -128,6 +134,9 @@ class Planner:
             fp.fault = kinds[tp.draw(len(kinds), "f_fk")]
             if cfg.focus == "seriality":
                 fp.fault = "raise"
+            if cfg.focus == "background":
+                fp.fault = "raise"
+                fp.delivery = "sync"
             fp.exc = tp.draw(len(EXC_KINDS), "f_exc")
             fp.msg = self._msg(fp.exc if fp.fault in ("raise", "ret_exc") else None)
             self._count("field:" + fp.fault)
